@@ -86,6 +86,8 @@ async def probe(port, timeout=5.0):
 
 
 async def main(args):
+    from . import lib as _lib
+    _lib.UNIQUE_SRC = True   # records are joined with connections by source port
     out = Out("C19", "c19", "upstream kind {origin via direct, proxy via http, via socks5, via quic, load balancer over two, a non-redproxy QUIC server} x fault {SIGKILL+restart, SIGTERM+restart, SIGSTOP..SIGCONT, SIGSTOP+SIGKILL+restart, polite QUIC close (CONNECTION_CLOSE)+restart} x phase {idle, mid-transfer (tunnel open across the outage), during connect} x outage length, repeated outages, with a continuous healthy probe stream on another upstream. distinct = distinct (kind, fault, phase, outage length, verdict part)")
     rng = random.Random(args.seed)
     wd = workdir("c19")
